@@ -138,21 +138,61 @@ def run_unit(unit, twin=None):
     dst = os.path.join(OUT, unit + ".rs")
     meta = {"items": []}
     res = {"obligations": [], "cmd": "", "meta": meta, "notes": [], "unit": unit}
-    try:
-        text = extract.process(tmpl, REPO, meta)
-    except extract.ExtractError as e:
-        res["obligations"].append({"id": "verus:%s" % unit, "engine": "verus", "strength": "unbounded",
-                                   "status": "undecided", "reason": "extraction: %s" % e})
-        return res
-    except Exception as e:  # malformed source etc. -> undecided, never an alarm
-        res["obligations"].append({"id": "verus:%s" % unit, "engine": "verus", "strength": "unbounded",
-                                   "status": "undecided", "reason": "extractor crashed: %r" % e})
-        return res
-    with open(dst, "w") as f:
-        f.write(text)
-    with open(dst + ".meta.json", "w") as f:
-        json.dump(meta, f, indent=1)
-    r = run_verus(dst)
+    stub = set()
+    r = None
+    for attempt in range(8):
+        meta = {"items": []}
+        res["meta"] = meta
+        try:
+            text = extract.process(tmpl, REPO, meta, stub=tuple(stub))
+        except extract.ExtractError as e:
+            res["obligations"].append({"id": "verus:%s" % unit, "engine": "verus", "strength": "unbounded",
+                                       "status": "undecided", "reason": "extraction: %s" % e})
+            return res
+        except Exception as e:  # malformed source etc. -> undecided, never an alarm
+            res["obligations"].append({"id": "verus:%s" % unit, "engine": "verus", "strength": "unbounded",
+                                       "status": "undecided", "reason": "extractor crashed: %r" % e})
+            return res
+        with open(dst, "w") as f:
+            f.write(text)
+        with open(dst + ".meta.json", "w") as f:
+            json.dump(meta, f, indent=1)
+        r = run_verus(dst)
+        d = r["json"]
+        vr = (d or {}).get("verification-results", {})
+        front_end = (not d) or ("verification-results" not in d) or vr.get("encountered-vir-error") or \
+            (vr.get("encountered-error") and vr.get("verified", 0) + vr.get("errors", 0) == 0)
+        if not front_end:
+            break
+        # front-end rejection: if the first error lies inside the body of an extracted function, stub that function
+        # (contract only, obligation undecided) and try again - the rest of the unit stays decidable
+        blocks = error_blocks(r["stderr"])
+        ranges = fn_line_ranges(dst)
+        culprit = None
+        for b in blocks:
+            m = re.search(r"--> (?:\S*/)?%s\.rs:(\d+):" % re.escape(unit), b)
+            if not m:
+                continue
+            ln = int(m.group(1))
+            cands = [(l1 - l0, name, l0) for name, l0, l1 in ranges if l0 <= ln <= l1]
+            if cands:
+                _, name, l0 = min(cands)
+                # map the emitted name back to an extracted item (same name and nearest following line)
+                its = [it for it in meta["items"] if it["kind"] == "fn" and it["emitted_as"] == name and not it.get("stubbed")]
+                if its:
+                    # several extracted fns may share a name (len, get): pick by order of appearance in the file
+                    same = [x for x in ranges if x[0] == name]
+                    idx = [x[1] for x in same].index(l0) if l0 in [x[1] for x in same] else 0
+                    all_named = [it for it in meta["items"] if it["kind"] == "fn" and it["emitted_as"] == name]
+                    if idx < len(all_named) and not all_named[idx].get("stubbed"):
+                        culprit = all_named[idx]["emitted_as"] + "@" + all_named[idx]["container"]
+                    else:
+                        culprit = its[0]["emitted_as"] + "@" + its[0]["container"]
+                    break
+        if culprit is None or culprit in stub:
+            break
+        stub.add(culprit)
+        res["notes"].append("stubbed %s after a front-end rejection" % culprit)
     res["cmd"] = "python3 verus/extract.py verus/units/%s.rs.tmpl %s .cache/verus/%s.rs && %s" % (unit, REPO, unit, r["cmd"])
     res["wall_s"] = r["wall_s"]
     d = r["json"]
@@ -187,7 +227,13 @@ def run_unit(unit, twin=None):
                   "time_s": fb.get("time-micros", 0) / 1e6, "rlimit": fb.get("rlimit"), "mode": mode,
                   "real_code": name in extracted}
             seen.add(name)
-            if fb.get("success"):
+            it_ = extracted.get(name)
+            if it_ is not None and any(x.get("stubbed") for x in meta["items"] if x["kind"] == "fn" and x["emitted_as"] == name):
+                st = [x for x in meta["items"] if x["kind"] == "fn" and x["emitted_as"] == name and x.get("stubbed")]
+                # (functions sharing a name are all marked when one of them is stubbed: conservative)
+                ob["status"] = "undecided"
+                ob["reason"] = "function body not under contract on this tree (%s); callers are checked against its contract" % st[0]["stubbed"][:200]
+            elif fb.get("success"):
                 ob["status"] = "verified"
             else:
                 errs = per_fn_err.get(name, [])
@@ -202,6 +248,14 @@ def run_unit(unit, twin=None):
                     ob["status"] = "undecided"
                     ob["reason"] = ("rlimit/timeout: " if re.search(r"resource limit|rlimit", txt, re.I) else "unattributed failure: ") + (txt[:300] or r["stderr"][-300:])
             res["obligations"].append(ob)
+    for x in meta["items"]:
+        if x["kind"] == "fn" and x.get("stubbed") and x["emitted_as"] not in seen:
+            seen.add(x["emitted_as"])
+            cont = re.sub(r"^impl(<[^>]*>)?\s+", "", x["container"]).split(" for ")[-1].split("<")[0].strip() if x["container"] not in ("-", "") else ""
+            qual = (cont + "::" if cont else "") + x["emitted_as"]
+            res["obligations"].append({"id": "verus:%s::%s" % (unit, qual), "engine": "verus", "strength": "unbounded", "mode": "exec",
+                                       "real_code": True, "status": "undecided",
+                                       "reason": "function body not under contract on this tree (%s); callers are checked against its contract" % x["stubbed"][:200]})
     # every extracted function must have produced an obligation (vacuity guard)
     for name in extracted:
         if name not in seen:
